@@ -7,6 +7,7 @@ package c15
 import (
 	"bytes"
 	"encoding/json"
+	"errors"
 	"fmt"
 	"sort"
 	"time"
@@ -28,6 +29,7 @@ type config struct {
 	Prewrite int    `json:"sequential_writes_before"`
 	Writers  int    `json:"writers"`
 	PerW     int    `json:"packets_per_writer"`
+	FailW0   bool   `json:"first_write_of_writer0_fails_downstream,omitempty"`
 	Bound    int    `json:"deviation_bound"`
 }
 
@@ -45,7 +47,10 @@ type sent struct {
 type sink struct {
 	stream int
 	got    *[]got
+	fail   *bool // the next write is seen by the transport, which then fails it
 }
+
+var errDownstream = errors.New("injected: the next writer failed")
 
 type got struct {
 	stream  int
@@ -56,6 +61,11 @@ type got struct {
 //go:norace
 func (s *sink) Write(h *rtp.Header, p []byte, _ interceptor.Attributes) (int, error) {
 	*s.got = append(*s.got, got{s.stream, h.Clone(), append([]byte(nil), p...)})
+	if s.fail != nil && *s.fail {
+		*s.fail = false
+		vsched.Yield() // other writers may run while this write is failing
+		return 0, errDownstream
+	}
 	return h.MarshalSize() + len(p), nil
 }
 
@@ -95,6 +105,7 @@ func body(c config, ctx *hk.Ctx) {
 	f, _ := twcc.NewHeaderExtensionInterceptor()
 	icpt, _ := f.NewInterceptor("")
 	var out []got
+	failNext := false
 	ids := []int{c.ExtID, c.ExtID2, 0}
 	ws := make([]interceptor.RTPWriter, 3)
 	for s := 0; s < 3; s++ {
@@ -102,7 +113,11 @@ func body(c config, ctx *hk.Ctx) {
 		if ids[s] != 0 {
 			info.RTPHeaderExtensions = []interceptor.RTPHeaderExtension{{URI: "urn:other", ID: 15}, {URI: uri, ID: ids[s]}}
 		}
-		ws[s] = icpt.BindLocalStream(info, &sink{s, &out})
+		sk := &sink{stream: s, got: &out}
+		if s == 0 {
+			sk.fail = &failNext
+		}
+		ws[s] = icpt.BindLocalStream(info, sk)
 	}
 	// fan-out of one received packet (what a forwarding application does): the same bytes are parsed once per
 	// outgoing stream - rtp.Header.Unmarshal lets extension payloads point into the buffer - and written first on
@@ -153,6 +168,7 @@ func body(c config, ctx *hk.Ctx) {
 	}
 	preCount := len(out) + fan
 	out = out[:0]
+	failNext = c.FailW0 // the numbers assigned (also to the packet whose write fails downstream) stay one run
 	sentLog := make([][]sent, c.Writers)
 	var threads []*vsched.Thread
 	for w := 0; w < c.Writers; w++ {
@@ -165,7 +181,7 @@ func body(c config, ctx *hk.Ctx) {
 				payload := []byte{byte(w), byte(k), 0x33}
 				log = append(log, sent{stream, h.Clone(), append([]byte(nil), payload...)})
 				n, err := ws[stream].Write(&h, payload, nil)
-				if err != nil {
+				if err != nil && !(c.FailW0 && errors.Is(err, errDownstream)) {
 					ctx.Fail("C15:write-error", "writer %d packet %d: %v", w, k, err)
 				}
 				if !bytes.Equal(payload, []byte{byte(w), byte(k), 0x33}) {
@@ -316,6 +332,9 @@ func configs(tier string) []config {
 			}
 		}
 	}
+	// the next writer of stream 0 fails once while the other writers run: the numbers seen at the transport
+	// (the failing call included) are still unique and consecutive
+	out = append(out, config{ExtID: 5, ExtID2: 3, Profile: "none", Existing: "none", Writers: 3, PerW: 2, Bound: 12, FailW0: true})
 	// all interleavings of four writers (two on the same stream)
 	out = append(out, config{ExtID: 5, ExtID2: 5, Profile: "one", Existing: "none", Writers: 4, PerW: 2, Bound: 4})
 	// the 2^16 wrap: concurrent writers started after 65534 sequential writes, and one purely sequential run across the wrap
